@@ -63,10 +63,13 @@ def _alarm(signum, frame):
     raise CaseTimeout()
 
 
+ALARM_SCALE = 1.0
+
+
 def with_alarm(fn, arg, seconds):
     """Run fn(arg) under SIGALRM; returns (ok, value|exception-repr)."""
     signal.signal(signal.SIGALRM, _alarm)
-    signal.setitimer(signal.ITIMER_REAL, seconds)
+    signal.setitimer(signal.ITIMER_REAL, seconds * ALARM_SCALE)
     try:
         return fn(arg)
     finally:
@@ -201,6 +204,27 @@ def pool_map(fn, items, procs=None, initfn=None, chunksize=None, hard_timeout=No
         else:
             out.append(on_timeout(item) if on_timeout else None)
     return out
+
+
+def retry_hangs(cases, obs, observe_fn, scale=6.0, limit=12):
+    """A watchdog that fires on a loaded machine is not an observation of the implementation: every case whose
+    observation mentions a hang is observed once more (when there are only a few of them), alone in this process, with every alarm `scale` times
+    longer; what that run observes replaces the first observation (a real non-termination hangs again)."""
+    global ALARM_SCALE
+    idx = [i for i, o in enumerate(obs) if o is not None and '"hang"' in json.dumps(o, default=repr)]
+    if not idx or len(idx) > limit:
+        return 0
+    old = ALARM_SCALE
+    ALARM_SCALE = scale
+    try:
+        for i in idx:
+            try:
+                obs[i] = observe_fn(cases[i])
+            except BaseException:  # noqa: BLE001
+                pass
+    finally:
+        ALARM_SCALE = old
+    return len(idx)
 
 
 # --------------------------------------------------------------------------
